@@ -190,8 +190,15 @@ func c02CheckCall(rc *RunCtx, x *Call, final bool) {
 			found = true
 		}
 	}
+	last := x.Txs[len(x.Txs)-1]
 	for _, tx := range x.Txs {
 		if tx.Step > x.TimelyStep {
+			if tx.Conn == last.Conn && tx.WireID == last.WireID && tx.At == x.TimelyAt && !tx.Stream {
+				// A datagram resend tick that fires at the very instant the reply
+				// arrives is a tie, not "waiting for a retransmission".
+				simrt.Probe("c02.resend_tie")
+				continue
+			}
 			rc.Fail("retransmitted_after_timely_reply", "call %d (%s): reply consumed at step %d t=%v but the query was transmitted again at step %d t=%v (conn %d)",
 				x.Idx, x.QName, x.TimelyStep, x.TimelyAt, tx.Step, tx.At, tx.Conn)
 			return
